@@ -614,6 +614,20 @@ def gen_cases(ctx, scale=1.0):
         cases.append(make_case(container_family(rng), rng, "container"))
     for _ in range(int(ctx.n(4, 30) * scale)):
         cases.append(make_case(cross_family(rng), rng, "cross"))
+    # numbers NESTED in hashable containers: an element is hashed through the container's `write_hash`, not through the
+    # number's own `get_hash`, so equal numbers of different representation must also agree there - for every sign and
+    # magnitude class (negative small ints sign-extend), at every position and depth
+    nested = [-1, -2, -7, -100, -2 ** 31, -2 ** 31 + 1, 0, 1, 7, 2 ** 31 - 1, 2 ** 31, -2 ** 31 - 1, 2 ** 40, -2 ** 40, 2 ** 53, -2 ** 53]
+    for z in nested + [rng.randint(-2 ** 31, -1) for _ in range(ctx.n(6, 60))] + [rng.randint(0, 2 ** 31 - 1) for _ in range(ctx.n(3, 30))]:
+        i_, f_ = ("int", z), ("float", int_to_float_bits(z))
+        if num_key(f_) != num_key(i_):
+            continue
+        other = atom(rng)
+        cases.append(make_case([("tuple", [i_, other]), ("tuple", [f_, other]), ("tuple", [other, i_]), ("tuple", [other, f_]),
+                                ("tuple", [i_]), ("tuple", [f_]), ("tuple", [i_, i_])], rng, "nested-twins"))
+        cases.append(make_case([("tuple", [("tuple", [i_])]), ("tuple", [("tuple", [f_])]), ("tuple", [("tuple", [other, f_]), i_]),
+                                ("tuple", [("tuple", [other, i_]), f_]), ("tuple", [f_, f_]), ("tuple", [i_, f_]), ("tuple", [f_, i_])],
+                               rng, "nested-twins"))
     return cases
 
 
